@@ -164,7 +164,7 @@ func propC19(t *rapid.T, is64 bool) {
 		x index
 		m map[uint64]*big.Int
 	}
-	var originals []kept
+	var originals, operands []kept
 	sawNeg, sawWiden, copyAfter := false, false, false
 	width := x.BitCount()
 	auto := f.max == 0 && f.min == 0
@@ -239,10 +239,13 @@ func propC19(t *rapid.T, is64 bool) {
 			}
 			n := rapid.IntRange(1, 3).Draw(t, "nothers")
 			var others []index
+			var otherMaps []map[uint64]*big.Int
 			add := map[uint64]*big.Int{}
 			desc := ""
 			for i := 0; i < n && len(free) > 0; i++ {
 				o := newIndex(is64, f)
+				omap := map[uint64]*big.Int{}
+				otherMaps = append(otherMaps, omap)
 				k := rapid.IntRange(1, 2).Draw(t, "ncols")
 				for j := 0; j < k && len(free) > 0; j++ {
 					ci := rapid.IntRange(0, len(free)-1).Draw(t, "free")
@@ -251,6 +254,7 @@ func propC19(t *rapid.T, is64 bool) {
 					v := drawValue(t, "pv", f, false)
 					o.SetValue(c, v)
 					add[c] = big.NewInt(v)
+					omap[c] = big.NewInt(v)
 					desc += fmt.Sprintf("[%d:%d]", c, v)
 				}
 				desc += "|"
@@ -259,6 +263,9 @@ func propC19(t *rapid.T, is64 bool) {
 			w := rapid.SampledFrom([]int{0, 1, 2, 5}).Draw(t, "workers")
 			log("ParOr(%d, %s)", w, desc)
 			x.ParOr(w, others...)
+			for i, o := range others {
+				originals = append(originals, kept{o, otherMaps[i]})
+			}
 			for c, v := range add {
 				m[c] = v
 			}
@@ -299,13 +306,24 @@ func propC19(t *rapid.T, is64 bool) {
 				o.SetValue(c, v)
 				om[c] = big.NewInt(v)
 			}
-			log("Add(%s)", descMap(om))
+			if len(operands) > 0 && rapid.IntRange(0, 2).Draw(t, "again") == 0 {
+				// an operand that was added before (it must still hold what it held then)
+				k := operands[rapid.IntRange(0, len(operands)-1).Draw(t, "which")]
+				if d := checkIndex(k.x, k.m, u); d != "" {
+					fail("an index that was the argument of an earlier Add changed afterwards: %s", d)
+				}
+				o, om = k.x, k.m
+				log("Add(again: %s)", descMap(om))
+			} else {
+				log("Add(%s)", descMap(om))
+				operands = append(operands, kept{o, cloneMap(om)})
+			}
 			x.AddIndex(o)
 			for c, v := range om {
 				if cur, ok := m[c]; ok {
 					m[c] = new(big.Int).Add(cur, v)
 				} else {
-					m[c] = v
+					m[c] = new(big.Int).Set(v)
 				}
 			}
 		},
@@ -388,6 +406,11 @@ func propC19(t *rapid.T, is64 bool) {
 			}
 		},
 	})
+	for i, o := range operands {
+		if d := checkIndex(o.x, o.m, u); d != "" {
+			fail("index that was the argument of Add changed afterwards (operand #%d): %s", i, d)
+		}
+	}
 	for i, o := range originals {
 		if d := checkIndex(o.x, o.m, u); d != "" {
 			fail("index that was copied at some point changed afterwards (original #%d): %s", i, d)
